@@ -32,6 +32,6 @@ check = make_check('C07', _oracle, _nt)
 
 def streams(tier):
     n = 8 if tier == 'quick' else 12
-    return [Stream('both-schedulers', check, strategy=lambda: sched.any_case(max_tasks=n, min_tasks=0, taskdep=True, lookalike_ids=True),
+    return [Stream('both-schedulers', check, strategy=lambda: sched.any_case(max_tasks=n, min_tasks=0, taskdep='share', lookalike_ids=True),
                    examples={'quick': 10000, 'thorough': 100000}),
             Stream('large', check, strategy=lambda: sched.any_case(max_tasks=30, min_tasks=13), examples={'quick': 400, 'thorough': 6000})]
